@@ -4,8 +4,10 @@ import (
 	"bytes"
 	"encoding/json"
 	"fmt"
+	"os"
 	"reflect"
 	"strings"
+	"sync"
 
 	"github.com/maruel/panicparse/v2/stack"
 
@@ -38,6 +40,17 @@ type C14Extra struct {
 	Tasks   [][]TaskOp `json:"tasks"`
 	Picks   []int      `json:"picks"` // scheduler decisions, consumed one per yield
 	History []TaskOp   `json:"history,omitempty"`
+	// Tree, when set, is a directory tree the shared Opts point at (GuessPaths
+	// and AnalyzeSources on): scans then also resolve paths and parse sources.
+	Tree *TreeEnv `json:"tree,omitempty"`
+}
+
+// optsFor builds the Opts value all tasks of a case share.
+func (ex *C14Extra) optsFor() *stack.Opts {
+	if ex.Tree == nil {
+		return &stack.Opts{NameArguments: true}
+	}
+	return &stack.Opts{LocalGOROOT: ex.Tree.GOROOT, LocalGOPATHs: append([]string(nil), ex.Tree.GOPATHs...), NameArguments: true, GuessPaths: true, AnalyzeSources: true}
 }
 
 var c14Levels = []stack.Similarity{stack.ExactFlags, stack.ExactLines, stack.AnyPointer, stack.AnyValue}
@@ -61,11 +74,9 @@ func aggKey(a *stack.Aggregated) string {
 	return b.String()
 }
 
-var c14Opts = &stack.Opts{NameArguments: true}
-
-func parseDoc(d *gen.Doc) *stack.Snapshot {
+func parseDoc(d *gen.Doc, opts *stack.Opts) *stack.Snapshot {
 	w := iosim.NewSimWriter(nil)
-	res := ScanOnce(bytes.NewReader(gen.Render(d).Bytes), w, c14Opts)
+	res := ScanOnce(bytes.NewReader(gen.Render(d).Bytes), w, opts)
 	return res.Snap
 }
 
@@ -91,7 +102,7 @@ type taskState struct {
 	panic_  string
 }
 
-func (t *taskState) runOp(op TaskOp, ex *C14Extra, shared []*stack.Snapshot, yield func()) {
+func (t *taskState) runOp(op TaskOp, ex *C14Extra, shared []*stack.Snapshot, opts *stack.Opts, yield func()) {
 	target := func() *stack.Snapshot {
 		if op.Target >= 0 && op.Target < len(shared) {
 			return shared[op.Target]
@@ -106,7 +117,7 @@ func (t *taskState) runOp(op TaskOp, ex *C14Extra, shared []*stack.Snapshot, yie
 		sr.Yield = yield
 		w := iosim.NewSimWriter(clk)
 		w.Yield = yield
-		s, suffix, err := stack.ScanSnapshot(sr, w, c14Opts)
+		s, suffix, err := stack.ScanSnapshot(sr, w, opts)
 		t.cur = s
 		t.results = append(t.results, "scan:"+snapKey(s)+"|"+ErrKey(err)+"|"+core.Hash(w.Buf, suffix))
 	case "agg":
@@ -154,9 +165,10 @@ func maskHTML14(b []byte) []byte {
 
 // runAlone executes one script serially on fresh objects.
 func runAlone(ex *C14Extra, script []TaskOp) (res []string, pan string) {
+	opts := ex.optsFor()
 	shared := make([]*stack.Snapshot, len(ex.Shared))
 	for i, di := range ex.Shared {
-		shared[i] = parseDoc(ex.Docs[di])
+		shared[i] = parseDoc(ex.Docs[di], opts)
 	}
 	t := &taskState{}
 	defer func() {
@@ -166,16 +178,17 @@ func runAlone(ex *C14Extra, script []TaskOp) (res []string, pan string) {
 		}
 	}()
 	for _, op := range script {
-		t.runOp(op, ex, shared, func() {})
+		t.runOp(op, ex, shared, opts, func() {})
 	}
 	return t.results, ""
 }
 
 // runInterleaved executes all scripts under the token-passing scheduler.
-func runInterleaved(ex *C14Extra, cov *Cov) ([]*taskState, []*stack.Snapshot, *tsched) {
+func runInterleaved(ex *C14Extra, cov *Cov) ([]*taskState, []*stack.Snapshot, *tsched, *stack.Opts) {
+	opts := ex.optsFor()
 	shared := make([]*stack.Snapshot, len(ex.Shared))
 	for i, di := range ex.Shared {
-		shared[i] = parseDoc(ex.Docs[di])
+		shared[i] = parseDoc(ex.Docs[di], opts)
 	}
 	n := len(ex.Tasks)
 	sc := &tsched{picks: ex.Picks, parked: make(chan int), resume: make([]chan struct{}, n), alive: make([]bool, n), last: -1}
@@ -208,7 +221,7 @@ func runInterleaved(ex *C14Extra, cov *Cov) ([]*taskState, []*stack.Snapshot, *t
 			yield := yieldAny
 			for _, op := range ex.Tasks[i] {
 				yield() // call boundary
-				t.runOp(op, ex, shared, yield)
+				t.runOp(op, ex, shared, opts, yield)
 			}
 		}()
 	}
@@ -246,7 +259,7 @@ func runInterleaved(ex *C14Extra, cov *Cov) ([]*taskState, []*stack.Snapshot, *t
 		cov.Probes["task-switches"] += sc.swtch
 		cov.Probes["yield-points"] += sc.yields
 	}
-	return tasks, shared, sc
+	return tasks, shared, sc, opts
 }
 
 // CheckC14 executes one case.
@@ -259,9 +272,16 @@ func CheckC14(c *Case, cov *Cov) []*Violation {
 	add := func(clause, msg string) {
 		vs = append(vs, &Violation{Prop: "C14", Clause: "C14." + clause, Msg: msg, Case: c})
 	}
+	if ex.Tree != nil {
+		if err := writeTreeFiles(ex.Tree.Dir, ex.Tree.Files); err != nil {
+			panic(err)
+		}
+		defer os.RemoveAll(ex.Tree.Dir)
+	}
 	if c.Mode == "history" {
-		pristine := parseDoc(ex.Docs[0])
-		subject := parseDoc(ex.Docs[0])
+		hopts := ex.optsFor()
+		pristine := parseDoc(ex.Docs[0], ex.optsFor())
+		subject := parseDoc(ex.Docs[0], hopts)
 		if subject == nil {
 			return nil
 		}
@@ -276,7 +296,7 @@ func CheckC14(c *Case, cov *Cov) []*Violation {
 						pan = fmt.Sprint(p)
 					}
 				}()
-				t.runOp(op, &ex, []*stack.Snapshot{subject}, func() {})
+				t.runOp(op, &ex, []*stack.Snapshot{subject}, hopts, func() {})
 			}()
 			if pan != "" {
 				add("panic", fmt.Sprintf("operation %d (%s) panics: %s", i, op.Op, pan))
@@ -299,7 +319,8 @@ func CheckC14(c *Case, cov *Cov) []*Violation {
 				return vs
 			}
 			// same operation sequence prefix on a fresh parse gives the same result
-			fresh := parseDoc(ex.Docs[0])
+			fopts := ex.optsFor()
+			fresh := parseDoc(ex.Docs[0], fopts)
 			ft := &taskState{}
 			// the i-th result depends only on the snapshot and (for agghtml) the latest agg
 			lastAgg := -1
@@ -312,10 +333,10 @@ func CheckC14(c *Case, cov *Cov) []*Violation {
 			if op.Op == "agghtml" && lastAgg >= 0 {
 				a := ex.History[lastAgg]
 				a.Target = 0
-				ft.runOp(a, &ex, []*stack.Snapshot{fresh}, func() {})
+				ft.runOp(a, &ex, []*stack.Snapshot{fresh}, fopts, func() {})
 				ft.results = nil
 			}
-			ft.runOp(op, &ex, []*stack.Snapshot{fresh}, func() {})
+			ft.runOp(op, &ex, []*stack.Snapshot{fresh}, fopts, func() {})
 			if len(ft.results) > 0 && ft.results[len(ft.results)-1] != t.results[len(t.results)-1] {
 				add("result-changed", fmt.Sprintf("operation %d (%s level %d) gives a different result than the same operation on a freshly parsed snapshot; after the history %s", i, op.Op, op.Level, histString(ex.History[:i])))
 				return vs
@@ -334,7 +355,7 @@ func CheckC14(c *Case, cov *Cov) []*Violation {
 		return vs
 	}
 	// interleaved tasks
-	tasks, shared, sc := runInterleaved(&ex, cov)
+	tasks, shared, sc, opts := runInterleaved(&ex, cov)
 	if cov != nil {
 		for _, t := range tasks {
 			cov.AddDigest(core.Hash([]byte(strings.Join(t.results, "\x00"))))
@@ -364,8 +385,12 @@ func CheckC14(c *Case, cov *Cov) []*Violation {
 			}
 		}
 	}
+	if !reflect.DeepEqual(opts, ex.optsFor()) {
+		add("opts-mutated", fmt.Sprintf("the Opts value shared by the tasks was modified by the library: %+v, was %+v", *opts, *ex.optsFor()))
+		return vs
+	}
 	for i, di := range ex.Shared {
-		if p := parseDoc(ex.Docs[di]); !reflect.DeepEqual(p.Goroutines, shared[i].Goroutines) {
+		if p := parseDoc(ex.Docs[di], ex.optsFor()); !reflect.DeepEqual(p.Goroutines, shared[i].Goroutines) {
 			add("snapshot-mutated", fmt.Sprintf("shared snapshot %d differs from a freshly parsed twin after the interleaved tasks ran", i))
 			return vs
 		}
@@ -381,9 +406,9 @@ func histString(h []TaskOp) string {
 	return "[" + strings.Join(p, " ") + "]"
 }
 
-func c14Doc(r *core.Rng) *gen.Doc {
-	if r.Chance(0.8) {
-		return gen.GenerateSimilar(r, gen.SimilarCfg{Groups: r.Range(1, 4), MaxPerGrp: []int{2, 3, 5, 8}[r.Intn(4)], Shuffle: r.Chance(0.5)})
+func c14Doc(r *core.Rng, files []string) *gen.Doc {
+	if r.Chance(0.8) || files != nil {
+		return gen.GenerateSimilar(r, gen.SimilarCfg{Groups: r.Range(1, 4), MaxPerGrp: []int{2, 3, 5, 8}[r.Intn(4)], Shuffle: r.Chance(0.5), Files: files})
 	}
 	cfg := gen.DefaultCfg(r)
 	cfg.MinDumps, cfg.MaxDumps = 1, 1
@@ -441,9 +466,19 @@ func c14Script(r *core.Rng, ndocs, nshared, n int) []TaskOp {
 // RunC14 is one simulated run: one history case and one interleaving case.
 func RunC14(r *core.Rng, run, seed uint64, tier string, cov *Cov) []*Violation {
 	var vs []*Violation
+	var tree *TreeEnv
+	var files []string
+	if r.Chance(0.3) {
+		base := os.Getenv("VERIF_TMP")
+		if base == "" {
+			base = os.TempDir()
+		}
+		tree, files = genTreeEnv(r, fmt.Sprintf("%s/verif-tree/c14/%d/%d", base, seed, run))
+		cov.Probe("tree-mode(GuessPaths+AnalyzeSources)")
+	}
 	// (1) history on one snapshot
 	{
-		ex := &C14Extra{Docs: []*gen.Doc{c14Doc(r)}, Shared: []int{0}}
+		ex := &C14Extra{Docs: []*gen.Doc{c14Doc(r, files)}, Shared: []int{0}, Tree: tree}
 		ex.History = c14Script(r, 1, 1, r.Range(2, 12))
 		for i := range ex.History {
 			if ex.History[i].Op == "scan" {
@@ -463,9 +498,9 @@ func RunC14(r *core.Rng, run, seed uint64, tier string, cov *Cov) []*Violation {
 	// (2) interleaved tasks
 	{
 		nd := r.Range(1, 3)
-		ex := &C14Extra{}
+		ex := &C14Extra{Tree: tree}
 		for i := 0; i < nd; i++ {
-			ex.Docs = append(ex.Docs, c14Doc(r))
+			ex.Docs = append(ex.Docs, c14Doc(r, files))
 		}
 		ns := r.Range(1, nd)
 		for i := 0; i < ns; i++ {
@@ -531,9 +566,17 @@ func RaceStageC14(seed uint64, rounds int) []*Violation {
 	for round := 0; round < rounds; round++ {
 		r := core.NewRng(core.Mix(seed, "C14/race", uint64(round)))
 		nd := r.Range(1, 3)
-		ex := &C14Extra{}
+		base := os.Getenv("VERIF_TMP")
+		if base == "" {
+			base = os.TempDir()
+		}
+		tree, files := genTreeEnv(r, fmt.Sprintf("%s/verif-tree/c14race/%d/%d", base, seed, round))
+		if err := writeTreeFiles(tree.Dir, tree.Files); err != nil {
+			panic(err)
+		}
+		ex := &C14Extra{Tree: tree}
 		for i := 0; i < nd; i++ {
-			ex.Docs = append(ex.Docs, c14Doc(r))
+			ex.Docs = append(ex.Docs, c14Doc(r, files))
 		}
 		for i := 0; i < nd; i++ {
 			ex.Shared = append(ex.Shared, i)
@@ -548,9 +591,10 @@ func RaceStageC14(seed uint64, rounds int) []*Violation {
 			}
 			ex.Tasks = append(ex.Tasks, sc)
 		}
+		ropts := ex.optsFor()
 		shared := make([]*stack.Snapshot, len(ex.Shared))
 		for i, di := range ex.Shared {
-			shared[i] = parseDoc(ex.Docs[di])
+			shared[i] = parseDoc(ex.Docs[di], ropts)
 		}
 		tasks := make([]*taskState, len(ex.Tasks))
 		done := make(chan int)
@@ -567,7 +611,7 @@ func RaceStageC14(seed uint64, rounds int) []*Violation {
 				}()
 				<-start
 				for _, op := range ex.Tasks[i] {
-					tasks[i].runOp(op, ex, shared, func() {})
+					tasks[i].runOp(op, ex, shared, ropts, func() {})
 				}
 			}()
 		}
@@ -577,6 +621,9 @@ func RaceStageC14(seed uint64, rounds int) []*Violation {
 		}
 		exj, _ := json.Marshal(ex)
 		c := &Case{Prop: "C14", Run: uint64(round), Seed: seed, Mode: "free-running", Extra: exj}
+		if !reflect.DeepEqual(ropts, ex.optsFor()) {
+			vs = append(vs, &Violation{Prop: "C14", Clause: "C14.race", Case: c, Msg: fmt.Sprintf("free-running: the shared Opts value was modified: %+v", *ropts)})
+		}
 		for i, t := range tasks {
 			want, wp := runAlone(ex, ex.Tasks[i])
 			if t.panic_ != wp {
@@ -588,6 +635,49 @@ func RaceStageC14(seed uint64, rounds int) []*Violation {
 				break
 			}
 		}
+		// scan storm: many private scans of the same sources at once (package
+		// level state in the source parser would be hit here), each compared
+		// with the serial result
+		if len(vs) == 0 {
+			want := make([]string, len(ex.Docs))
+			for i, d := range ex.Docs {
+				want[i] = snapKey(parseDoc(d, ex.optsFor()))
+			}
+			bad := make(chan string, 64)
+			var wg sync.WaitGroup
+			for g := 0; g < 16; g++ {
+				wg.Add(1)
+				go func(g int) {
+					defer wg.Done()
+					defer func() {
+						if p := recover(); p != nil {
+							select {
+							case bad <- fmt.Sprintf("goroutine %d panics: %v", g, p):
+							default:
+							}
+						}
+					}()
+					o := ex.optsFor()
+					for n := 0; n < 60; n++ {
+						i := (g + n) % len(ex.Docs)
+						if got := snapKey(parseDoc(ex.Docs[i], o)); got != want[i] {
+							select {
+							case bad <- fmt.Sprintf("goroutine %d scan %d of input %d differs from the serial scan", g, n, i):
+							default:
+							}
+							return
+						}
+					}
+				}(g)
+			}
+			wg.Wait()
+			close(bad)
+			for m := range bad {
+				vs = append(vs, &Violation{Prop: "C14", Clause: "C14.race", Case: c, Msg: "free-running scan storm: " + m})
+				break
+			}
+		}
+		os.RemoveAll(tree.Dir)
 		if len(vs) > 0 {
 			break
 		}
